@@ -29,13 +29,7 @@ def parseHexList : List String → Option (List (List Byte))
     let b ← parseHexList r
     pure (a :: b)
 
-/-- `decs` with abandoned frames: `none` stands for "the caller gives the frame in progress up and empties its
-    buffer" - it keeps its other decoder variables, which is all the decoder asks of it -/
-def readChunksAbandon : Model.RState → List (Option (List Byte)) → List (Res (List Msg))
-  | _, [] => []
-  | st, none :: cs => readChunksAbandon { st with buf := [] } cs
-  | st, some c :: cs => let (st', r) := Model.readPlain st c; r :: readChunksAbandon st' cs
-
+/-- operands of `decsa` (`Model.readChunksAbandon`): `X` stands for an abandoned frame -/
 def parseHexOrX : List String → Option (List (Option (List Byte)))
   | [] => some []
   | "X" :: r => do
@@ -63,7 +57,7 @@ def step (line : String) : String :=
     | none => "bad-op"
   | "decsa" :: hs =>
     match parseHexOrX hs with
-    | some cs => " | ".intercalate ((readChunksAbandon {} cs).map (resToString msgsToString))
+    | some cs => " | ".intercalate ((Model.readChunksAbandon {} cs).map (resToString msgsToString))
     | none => "bad-op"
   | ["spec", h] =>
     match bytesOfHex h with
